@@ -20,7 +20,7 @@ ID = "C03"
 TECHNIQUE = "explicit exploration of all gradient-presence histories up to a depth bound x configuration deviations on the real optimizer; basis invariants (orthonormality, diagonalisation, orthogonal-iteration staircase, bit-frozen off schedule) + float64 reference model given the stored bases"
 RULE = (
     "complete product eigenvector method {eigh, QR(1 it), QR(3 it, tol 0), QR(2 it, tol 1e-5)} x (param dtype, preconditioner dtype) in {f32,f64,bf16}x{f32,f64}; all <=2 deviations (1 in quick) from "
-    "baselines over beta2/epsilon/inv_root_override/ignored dims/grafting/momentum+decay/shape/(freq,start)/gradient kind; histories over masks {all,none,first-only,second-only} of depth D "
+    "baselines over beta2/epsilon/inv_root_override/ignored dims/grafting/momentum+decay/shape/(freq,start)/gradient kind; histories over masks {all,none,first-only,second-only} of depth D (plus, for 4 configurations with frequency 3 / start 4, every periodic mask pattern of period <= 2 (3) over 10 (13) steps) "
     "(3 quick, 4 thorough) with a rank-1 first gradient. state = visible optimizer digest; non-trivial = history with a mask change"
 )
 ASSUMPTIONS = [
@@ -81,6 +81,12 @@ def configs(tier, seed):
     for m in METHODS:
         for dt in DTYPES:
             add(mk(BASELINES[0], m, dt, seed))
+    # non-dyadic beta2 (0.999, 0.9): float64 everywhere and no bias correction, so that no float32 scalar enters and the
+    # recurrences must hold to float64 accuracy (a weight 1 - beta2 formed in float32 is off by 1e-5 relative at 0.999)
+    for b2 in (0.999, 0.9):
+        for m in (METHODS[0], METHODS[2]):
+            add(mk(dict(BASELINES[0], beta2=b2, bias_corr=False, grad_kind="table"), m, ("f64", "f64"), seed))
+            add(mk(dict(BASELINES[1], beta2=b2, bias_corr=False, beta1=0.0), m, ("f64", "f64"), seed))
     # reduced-precision factor matrices (eigh is not implemented for bfloat16: every refresh takes the double-precision
     # retry, and the basis is stored in the parameter's float32): eigendecomposition method only
     for base in BASELINES:
@@ -101,7 +107,17 @@ def configs(tier, seed):
 def work(tier, seed):
     depth = 3 if tier == "quick" else 4
     cfgs = configs(tier, seed)
-    return [{"cfgs": ch, "depth": depth} for ch in common.chunks(cfgs, 2 if tier == "quick" else 3)]
+    units = [{"cfgs": ch, "depth": depth} for ch in common.chunks(cfgs, 2 if tier == "quick" else 3)]
+    # long horizon: periodic mask patterns over many refresh intervals (both eigenvector methods, frequency 3 / start 4)
+    longs = []
+    for base in BASELINES:
+        for m in (METHODS[0], METHODS[3]):
+            c = mk(dict(base, fs=(3, 4), grad_kind="table"), m, ("f32", "f32") if base is BASELINES[0] else ("f64", "f64"), seed)
+            if c is not None:
+                longs.append(c)
+    for c in longs:
+        units.append({"cfgs": [c], "depth": 10 if tier == "quick" else 13, "long": True, "period": 2 if tier == "quick" else 3})
+    return units
 
 
 # ----------------------------------------------------------------------------- basis oracle
@@ -198,7 +214,18 @@ def run_unit(unit):
     for cfg in unit["cfgs"]:
         res["stats"]["configs"] += 1
         masks = [[1, 1], [0, 0], [1, 0], [0, 1]]
-        for h in itertools.product(masks, repeat=unit["depth"]):
+        if unit.get("long"):
+            seen, hs = set(), []
+            for period in range(1, unit["period"] + 1):
+                for pat in itertools.product(masks, repeat=period):
+                    h = tuple(tuple(pat[t % period]) for t in range(unit["depth"]))
+                    if h not in seen:
+                        seen.add(h)
+                        hs.append([list(m) for m in h])
+            res["stats"]["long_histories"] = res["stats"].get("long_histories", 0) + len(hs)
+        else:
+            hs = itertools.product(masks, repeat=unit["depth"])
+        for h in hs:
             hist = [["step", list(m)] for m in h]
             # the basis oracle needs the whole prefix (it tracks the previous basis), so it runs from the first step;
             # the history tree is small enough here
